@@ -42,6 +42,9 @@ Resolutions(T, tb, sc) == {o \in Orders(T) : tb # "random" => Desc(o, sc)}
 (* elect the top m of a ranking of sets.  Result: a set of outcomes; an outcome is   *)
 (* a record; err = TRUE means "boundary tie, no tiebreak requested" (ValueError).    *)
 ElectTop(rk, m, tb, sc) ==
+  IF m < 1 \/ m > NumCands(rk)        \* seat count outside 1..number of candidates: refused (C20), same error record
+  THEN {[err |-> TRUE, elected |-> <<>>, remaining |-> <<>>, tbs |-> {}]}
+  ELSE
   LET i == CHOOSE j \in 1..Len(rk) : CardUpTo(rk, j) >= m /\ CardUpTo(rk, j-1) < m
   IN IF CardUpTo(rk, i) = m
      THEN {[err |-> FALSE, elected |-> SubSeq(rk, 1, i), remaining |-> SubSeq(rk, i+1, Len(rk)), tbs |-> {}]}
